@@ -171,7 +171,7 @@ def copy(mesh : Mesh, copy_attributes=False, copy_connectivity=False) -> Mesh:
             copy_mesh.cell_faces._adj = deepcopy(mesh.cell_faces._adj)
         # _cont of face_corners and cell_corners are always empty
     if copy_connectivity and hasattr(mesh, "connectivity"):
-        copy_mesh.connectivity = mesh.connectivity
+        copy_mesh.connectivity = deepcopy(mesh.connectivity, {id(mesh): copy_mesh}) # its back reference is rebound to the copy
     return copy_mesh
 
 def merge(mesh_list : list) -> Mesh:
